@@ -186,7 +186,12 @@ class Q:
             return call(lam(z, w), [N(v)]), call(lam(z, x), [N(v)])
         if k == "lead":
             # a method of an object returned directly (no lambda): e.LeadLep().pt()
-            o, ox, res = self.mcall("Event", N(v), N(v), r.choice(["LeadLep", "LeadMu"]), ev)
+            lead = r.choice(["LeadLep", "LeadMu"])
+            o, ox, res = self.mcall("Event", N(v), N(v), lead, ev)
+            if r.random() < 0.4:       # (e.LeadLep() if c else e.LeadLep()).pt(): equal object types on both branches
+                o2, ox2, _ = self.mcall("Event", N(v), N(v), lead, ev)
+                o = ast.IfExp(test=gen.cmp(ast.Gt, C(1), C(0)), body=o, orelse=o2)
+                ox = ast.IfExp(test=gen.cmp(ast.Gt, C(1), C(0)), body=ox, orelse=ox2)
             sub = res.split(":")[1]
             w, x, _ = self.mcall(sub, o, ox, r.choice(sorted(METHODS[sub])), ev)
             return w, x
@@ -239,6 +244,12 @@ class Q:
             w, x, res = self.mcall("Event", N(v), N(v), r.choice(["Jets", "Jets", "Muons", "Parts", "GoodJets", "CTrks", "CTrks", "ItJets", "ItJets"]), ev)
         else:
             w, x, res = self.mcall("Jet", N(v), N(v), r.choice(["trks", "subs", "leps", "ctrks"]), ev)
+        if r.random() < 0.2:
+            # a conditional whose branches have the same collection type is a typed receiver like any other
+            name = w.func.attr
+            w2, x2, _ = self.mcall(cls, N(v), N(v), name, ev)
+            t, tx = gen.cmp(ast.Gt, C(1), C(0)), gen.cmp(ast.Gt, C(1), C(0))
+            w, x = ast.IfExp(test=t, body=w, orelse=w2), ast.IfExp(test=tx, body=x, orelse=x2)
         self.kind = res.split(":")[0]
         return w, x, res.split(":")[1]
 
